@@ -45,6 +45,30 @@ Theorem C10_grant_complete :
 Proof. exact grant_complete. Qed.
 Print Assumptions C10_grant_complete.
 
+(* ISSUE TIME = NOW.  The model of make_auth_header writes the clock of the call (whole seconds) as iat - the specification's
+   issue time - and a header issued at clock t verifies at every receiver clock t' with -skew <= t' - t <= skew - 7/8 s
+   (times in eighths of a second; the 7/8 s is the truncation of iat to whole seconds). *)
+Theorem C10_issue_time_is_now : forall t8, issue_iat t8 = spec_issue_time t8.
+Proof. reflexivity. Qed.
+Print Assumptions C10_issue_time_is_now.
+
+Theorem C10_grant_complete_issued_now :
+  forall mac decode skew eh h t8 t8' hdr u key,
+    issuedb mac decode "consumer" (Some (user_name u)) key (issue_iat t8) hdr = true ->
+    get_hash h u = Some key -> key <> "" ->
+    - (8 * skew) <= t8' - t8 <= 8 * skew - 7 ->
+    grant mac decode skew h t8' hdr = Some u /\ prepare mac decode skew eh h t8' (Some hdr) = level_of u.
+Proof. exact grant_complete_issued_now. Qed.
+Print Assumptions C10_grant_complete_issued_now.
+
+Theorem C10_device_token_issued_now :
+  forall mac decode skew username key t8 t8' hdr,
+    issuedb mac decode "device" username key (issue_iat t8) hdr = true -> key <> "" ->
+    - (8 * skew) <= t8' - t8 <= 8 * skew - 7 ->
+    parse_auth_header mac decode skew t8' hdr "device" (fun _ => Some key) false = RGrant (username_claim username).
+Proof. exact device_complete_issued_now. Qed.
+Print Assumptions C10_device_token_issued_now.
+
 (* tokens the hub issues for webhooks (no usr) and reverse calls (usr = device id) verify under the same function *)
 Theorem C10_device_token_complete :
   forall mac decode skew username key iat hdr now8,
